@@ -764,14 +764,14 @@ Definition for_core (st : state) (env : loc) (xs : list str) (coll body : expr) 
     end
   end.
 
-(* NodeFor.evaluate around evaluateLoop: a loop left by an error removes its loop variables; a binding the enclosing
-   frame had for a loop variable before the loop is put back afterwards, however the loop ends *)
+(* NodeFor.evaluate around evaluateLoop: however the loop is left (end, break, return, error) its loop variables are removed;
+   a binding the enclosing frame had for a loop variable before the loop is put back afterwards *)
 Definition frame_get (st : state) (env : loc) (x : str) : option value :=
   match rd st env with Some (CFrame bs _) => assoc_get x bs | _ => None end.
 Definition is_exception (o : outcome) : bool := match o with OErr _ | OHostX _ => true | _ => false end.
 Definition for_sem (st : state) (env : loc) (xs : list str) (coll body : expr) (what : Z) : state * outcome :=
   let '(st1, r) := for_core st env xs coll body what in
-  let st2 := if is_exception r then fold_left (fun s x => env_remove s env x) xs st1 else st1 in
+  let st2 := fold_left (fun s x => env_remove s env x) xs st1 in      (* however the loop is left *)
   (fold_left (fun s x => match frame_get st env x with Some v => env_put s env x v | None => s end) xs st2, r).
 
 (* ---- NodeWhile ---- *)
